@@ -72,7 +72,7 @@ def query_menu(ref, typ, segs):
                 if vs:
                     val = vs[0]
                     break
-        out += [f"{deeper[0]}={val}", f"{deeper[0]}=~{val}", f"{deeper[0]}=*"]
+        out += [f"{deeper[0]}={val}", f"{deeper[0]}=~{val}", f"{deeper[0]}=*", f"{deeper[0]}=>"]
     for b2, ch in ref.key_types.items():
         f = [k for k in ch if k not in chain]
         if b2 != base and f:
